@@ -491,6 +491,60 @@ func c11stress(args []string) int {
 		rep.Calls["cold-start searches"] = nCold.Load()
 		rep.Calls["cold-start typo cases"] = int64(len(fuzzyLive))
 	}
+	// ---------------- one options value shared by every goroutine: the boost table inside it is a map that all of them hand to
+	// the engine at once (a server would build it once per project); expected answers come from private copies
+	{
+		shared := database.SearchOptions{Limit: 5, UseNLP: true, UseFuzzy: true,
+			ContextBoosts: map[string]float64{"docker": 2.0, "git": 1.5, "list": 1.2, "qqzzxxjj": 3.0}}
+		private := func() database.SearchOptions {
+			o := shared
+			o.ContextBoosts = map[string]float64{}
+			for k, v := range shared.ContextBoosts {
+				o.ContextBoosts[k] = v
+			}
+			return o
+		}
+		type sq struct {
+			q   string
+			exp []c11Res
+		}
+		var qs []sq
+		seen := map[string]bool{}
+		for _, c := range live {
+			if !seen[c.Query] && len(qs) < 40 {
+				seen[c.Query] = true
+				a := c11Conv(db, db.SearchUniversal(c.Query, private()))
+				if c11Equal(a, c11Conv(db, db.SearchUniversal(c.Query, private()))) {
+					qs = append(qs, sq{c.Query, a})
+				}
+			}
+		}
+		var nShared atomic.Int64
+		var sw sync.WaitGroup
+		for g := 0; g < G && len(qs) > 0; g++ {
+			sw.Add(1)
+			go func(g int) {
+				defer sw.Done()
+				defer notePanic("shared-options goroutine")
+				gr := NewRng(*seed, uint64(5000+g), "c11stress-shared")
+				for it := 0; it < 150; it++ {
+					x := qs[gr.Intn(len(qs))]
+					got := c11Conv(db, db.SearchUniversal(x.q, shared))
+					nShared.Add(1)
+					if !c11Equal(got, x.exp) {
+						record("searches sharing one options value (boost table)", &c11Case{Query: x.q, Opts: shared, exp: x.exp}, got)
+					}
+				}
+			}(g)
+		}
+		sw.Wait()
+		if len(shared.ContextBoosts) != 4 {
+			mu.Lock()
+			rep.LruFails = append(rep.LruFails, fmt.Sprintf("the caller's boost table was modified by searches: now %d keys", len(shared.ContextBoosts)))
+			mu.Unlock()
+		}
+		rep.Calls["shared-options searches"] = nShared.Load()
+	}
 	rep.Calls["SearchUniversal"] = nDirect.Load()
 	rep.Calls["SearchWithOptionsAndCache"] = nCached.Load()
 	rep.Calls["SearchWithOptionsAndMonitoring"] = nMon.Load()
